@@ -57,8 +57,17 @@ def main():
         meta["caught_by_quick_check"] = (rc_k == 1 and any(l.startswith("VIOLATION") for l in out_k.splitlines()))
         dst = os.path.join(VERIF, "seeded", name)
         os.makedirs(dst, exist_ok=True)
-        shutil.copy(os.path.join(src, "patch.diff"), os.path.join(dst, "patch.diff"))
-        shutil.copy(os.path.join(src, "demo.py"), os.path.join(dst, "demo.py"))
+        old = os.path.join(dst, "meta.json")
+        if os.path.exists(old):        # re-confirmation of a recorded change: keep its description
+            o = json.load(open(old))
+            for k in ("what", "author"):
+                if k in o:
+                    meta[k] = o[k]
+            if not needs:
+                meta["needs_to_manifest"] = o.get("needs_to_manifest", "")
+        if os.path.realpath(src) != os.path.realpath(dst):
+            shutil.copy(os.path.join(src, "patch.diff"), os.path.join(dst, "patch.diff"))
+            shutil.copy(os.path.join(src, "demo.py"), os.path.join(dst, "demo.py"))
         with open(os.path.join(dst, "meta.json"), "w") as f:
             json.dump(meta, f, indent=1)
             f.write("\n")
